@@ -206,11 +206,13 @@ class ScriptedSim(mosaik_api_v3.Simulator):
                     emit = True
                 else:
                     emit = rng.random() < beh.get("p_out", 0.7)
-                if (eid, attr) in weak_out and not beh.get("never_settle"):
-                    if k >= L - 1 if beh.get("loop_member") else k >= L:
+                if kind != "persistent" and (eid, attr) in weak_out:
+                    # same-time loops must settle: an event that feeds a weak
+                    # connection is emitted by at most L steps per time
+                    if beh.get("never_settle"):
+                        emit = True
+                    elif k >= L:
                         emit = False
-                if beh.get("never_settle") and (eid, attr) in weak_out:
-                    emit = True
                 if emit:
                     out.setdefault(eid, {})[attr] = f"{self.sid}/{eid}/{attr}@{time}#{k}"
         otime = None
